@@ -1,7 +1,10 @@
 #!/bin/bash
 # run_seeded.sh <seeded-name> <tier> <ID> [<ID>...] : apply a seeded change to /repo, run checks, undo.
+# The evidence files are put back afterwards (evidence must describe runs on the unchanged tree).
 NAME=$1; TIER=$2; shift 2
 cd /repo && git status --short | grep -v '^??' | grep -q . && { echo "repo not clean"; exit 2; }
+BK=$(mktemp -d /tmp/evidence_bk.XXXXXX)
+cp -a /verif/evidence/. $BK/
 git -C /repo apply /verif/seeded/$NAME/patch.diff || exit 2
 for id in "$@"; do
   echo "=== $NAME vs $id ($TIER)"
@@ -9,3 +12,4 @@ for id in "$@"; do
 done
 git -C /repo checkout -- .
 git -C /repo status --short | grep -v '^??'
+cp -a $BK/. /verif/evidence/ && rm -rf $BK
